@@ -182,7 +182,7 @@ def _run_shard(arg):
     pid, tier, seed = _META
     block = _BLOCKS[bi]
     ctx = Ctx(pid, tier, seed, block.name)
-    signal.signal(signal.SIGALRM, _on_alarm)
+    signal.signal(signal.SIGPROF, _on_alarm)
     try:
         for case in block.cases(shard, nshards):
             ctx.case = case
@@ -192,16 +192,16 @@ def _run_shard(arg):
             try:
                 if block.backstop:
                     # repeating timer: the VM's TRY blocks catch BaseException, so one shot could be swallowed
-                    signal.setitimer(signal.ITIMER_REAL, block.backstop, 0.05)
+                    signal.setitimer(signal.ITIMER_PROF, block.backstop, 0.05)
                 try:
                     block.fn(ctx, case)
                 finally:
-                    signal.setitimer(signal.ITIMER_REAL, 0)
+                    signal.setitimer(signal.ITIMER_PROF, 0)
                     if _env().ABORT[0]:
                         _env().ABORT[0] = False
                         raise _env().CaseTimeout()
             except _case_timeout():
-                signal.setitimer(signal.ITIMER_REAL, 0)
+                signal.setitimer(signal.ITIMER_PROF, 0)
                 _env().ABORT[0] = False
                 ctx.violation({'clause': 'case did not finish within the per-case backstop', 'block': block.name},
                               f'no result after {block.backstop}s (exponential work or a hang in the code under test)')
@@ -403,16 +403,16 @@ def replay(pid, path, blocks_for):
         return 2
     ctx = Ctx(pid, tier, seed, blk.name)
     ctx.case = dec(r['case'])
-    signal.signal(signal.SIGALRM, _on_alarm)
+    signal.signal(signal.SIGPROF, _on_alarm)
     try:
         if blk.backstop:
-            signal.setitimer(signal.ITIMER_REAL, blk.backstop, 0.05)
+            signal.setitimer(signal.ITIMER_PROF, blk.backstop, 0.05)
         try:
             blk.fn(ctx, ctx.case)
         finally:
-            signal.setitimer(signal.ITIMER_REAL, 0)
+            signal.setitimer(signal.ITIMER_PROF, 0)
     except _case_timeout():
-        signal.setitimer(signal.ITIMER_REAL, 0)
+        signal.setitimer(signal.ITIMER_PROF, 0)
         _env().ABORT[0] = False
         ctx.violation({'clause': 'case did not finish within the per-case backstop', 'block': blk.name}, f'no result after {blk.backstop}s')
     if ctx.nviol:
